@@ -61,6 +61,13 @@ def interval(s: Sym, env: Callable[[Sym], Optional[Interval]]) -> Interval:
                 return (0, INF)
             lo = 0 if a[0] <= 0 <= a[1] else min(abs(a[0]), abs(a[1]))
             return (lo, max(abs(a[0]), abs(a[1])))
+        if base == "bit_length" and s[1][0] == "a" and not s[2]:
+            a = interval(s[1][1], env)
+            if a[0] >= 0 and a[1] != INF:
+                return (int(a[0]).bit_length(), int(a[1]).bit_length())
+            if a[1] < 0 and a[0] != -INF:
+                return (int(-a[1]).bit_length(), int(-a[0]).bit_length())
+            return (0, INF)
         if base == "try_value" and len(s[2]) == 1:
             # open enum constructor: the member's number is its argument
             return interval(s[2][0], env)
@@ -76,6 +83,8 @@ def interval(s: Sym, env: Callable[[Sym], Optional[Interval]]) -> Interval:
             return (-xs[0][1] - 1, -xs[0][0] - 1)
         if op in ("not", "==", "<", "is", "in", "truth"):
             return (0, 1)
+        if op == "or" and xs and (xs[0][0] > 0 or xs[0][1] < 0):
+            return xs[0]            # a non-zero first operand is the value of `a or b`
         if len(xs) != 2:
             if op in ("and", "or"):
                 return (min(x[0] for x in xs), max(x[1] for x in xs))
